@@ -188,7 +188,7 @@ static int sReadValues(FILE *fp, int n, float *destination, int perline,
 static void
 FormFullA(int n, int_t *nonz, float **nzval, int_t **rowind, int_t **colptr)
 {
-    int_t i, j, k, col, new_nnz;
+    int_t i, j, k, col, new_nnz, ndiag;
     int_t *t_rowind, *t_colptr, *al_rowind, *al_colptr, *a_rowind, *a_colptr;
     int_t *marker;
     float *t_val, *al_val, *a_val;
@@ -227,7 +227,12 @@ FormFullA(int n, int_t *nonz, float **nzval, int_t **rowind, int_t **colptr)
 	    ++marker[col];
 	}
 
-    new_nnz = *nonz * 2 - n;
+    /* Diagonal entries need not all be stored: count the ones that are. */
+    ndiag = 0;
+    for (j = 0; j < n; ++j)
+	for (i = al_colptr[j]; i < al_colptr[j+1]; ++i)
+	    if ( al_rowind[i] == j ) ++ndiag;
+    new_nnz = *nonz * 2 - ndiag;
     if ( !(a_colptr = intMalloc( n+1 ) ) )
 	ABORT("SUPERLU_MALLOC a_colptr[]");
     if ( !(a_rowind = intMalloc( new_nnz) ) )
